@@ -5,6 +5,14 @@ import KeepVerif.Props.C01Agree3
 `views_agree_after_phase_2`: for EVERY configuration and any two honest members (not in the corrupt
 set), the states of `run` after phase 2 have equal IA sets and equal DQ sets, and neither member
 marked the other — unconditionally (no premises): the phase 2 step is wired to the network lemma.
+
+`runPhase_sending`, `deliverTo_prev_author`, `deliverTo_views` lift the network lemma to every sending
+phase of `run` (the bridge the later phases need).  `agreement_summary` collects what is proved about
+`run`: phase 2 unconditionally, the final outcome under `Sync10` (see `Props/C01Agree3.lean`).
+Not discharged: that honest members of `run` satisfy the premises of the phase 5 and phase 9 steps
+(truthful accusations covering every private disqualification; accusations against honest members
+judged false — this needs the symbolic crypto facts: an honest dealer's ciphertext decrypts under the
+ECDH key of the pair and its share verifies against its own commitments/points), hence `Sync10`.
 -/
 namespace KeepVerif.C01
 
@@ -381,5 +389,68 @@ theorem agreement_after_phase_2 (cfg : Cfg) :
   · obtain ⟨_, h1, h2, h3, h4, _, _⟩ := views_agree_after_phase_2 cfg i j hi hj hij hca hcb
     refine ⟨h1, h2, fun _ => ?_⟩
     rw [hidj]; exact ⟨h3, h4⟩
+
+/-! ## the network lemma at the level of `runPhase` (bridge for the later phases) -/
+
+/-- the wire messages of a sending phase -/
+def wiresOf (cfg : Cfg) (sts : List St) (ph : Nat) : List Msg :=
+  (sts.map (fun st => if alive st then initiate ph st else (st, []))).flatMap
+    (fun x => if alive x.1 then applyScript cfg x.1 ph x.2 else [])
+
+/-- delivery of a phase's wire messages to one (live) member -/
+def deliverTo (cfg : Cfg) (ph : Nat) (wires : List Msg) (st : St) : St :=
+  let st' := (deliveryOrder cfg st.id ph wires).foldl (receive ph) { st with inbox := [] }
+  { st' with prev := st'.inbox, inbox := [] }
+
+theorem runPhase_sending (cfg : Cfg) (sts : List St) (ph : Nat) (h : sendingPhase ph = true) :
+    runPhase cfg sts ph =
+      (sts.map (fun st => if alive st then (initiate ph st).1 else st)).map
+        (fun st => if !alive st then st else deliverTo cfg ph (wiresOf cfg sts ph) st) := by
+  unfold runPhase
+  simp only [h, Bool.not_true, Bool.false_eq_true, if_false, List.map_map]
+  apply List.map_congr_left
+  intro st _
+  simp only [Function.comp_apply]
+  split <;> rfl
+
+/-- **Consistent broadcast inside `run`**: in ANY sending phase, what a live member holds of author
+    `k` after the delivery is exactly the wire messages authored by `k`, in `k`'s order, that pass
+    the member's admission rule — whatever the per-receiver delivery order is.  Two members whose
+    admission rules agree on `k`'s messages therefore hold the same messages of `k`. -/
+theorem deliverTo_prev_author (cfg : Cfg) (ph : Nat) (wires : List Msg) (st : St) (k : Nat)
+    (hk : k ∈ members cfg.n) :
+    (deliverTo cfg ph wires st).prev.filter (fun m => m.hdr.author = k) =
+      (wires.filter (fun m => m.hdr.author = k)).filter (admits ph st) := by
+  have h := inbox_author cfg ph wires { st with inbox := [] } k hk rfl
+  have hadm : admits ph { st with inbox := [] } = admits ph st := by
+    funext m; simp [admits, acceptAccusation, accept, isOperating]
+  rw [hadm] at h
+  exact h
+
+theorem deliverTo_views (cfg : Cfg) (ph : Nat) (wires : List Msg) (st : St) :
+    (deliverTo cfg ph wires st).ia = st.ia ∧ (deliverTo cfg ph wires st).dq = st.dq ∧
+    (deliverTo cfg ph wires st).id = st.id ∧ (deliverTo cfg ph wires st).n = st.n ∧
+    (deliverTo cfg ph wires st).status = st.status := by
+  obtain ⟨_, _, h3, h4, h5, h6⟩ := foldl_receive ph (deliveryOrder cfg st.id ph wires) { st with inbox := [] }
+  exact ⟨h3, h4, h5, h6, foldl_receive_status ph _ _⟩
+
+/-! ## summary: what is proved about `run` -/
+
+/-- **What is proved about the model's `run`, for every configuration.**
+    (1) unconditionally: after phase 2 all honest members hold the same IA and DQ sets and no honest
+        member is marked by an honest member;
+    (2) `run` is `finish` of the states after phase 10, and under the named premises `Sync10` on two
+        members' phase 10 states they finish with equal IA sets, DQ sets and group keys. -/
+theorem agreement_summary (cfg : Cfg) :
+    (∀ a ∈ after cfg 2, ∀ b ∈ after cfg 2, a.id ∉ corrupt cfg → b.id ∉ corrupt cfg →
+      (∀ k, k ∈ a.ia ↔ k ∈ b.ia) ∧ (∀ k, k ∈ a.dq ↔ k ∈ b.dq) ∧
+      (a.id ≠ b.id → b.id ∉ a.ia ∧ b.id ∉ a.dq)) ∧
+    run cfg = (after cfg 10).map finish ∧
+    (∀ a ∈ after cfg 10, ∀ b ∈ after cfg 10, Sync10 a b →
+      (finish a).status = .ok ∧ (finish b).status = .ok ∧
+      (∀ k, k ∈ (finish a).ia ↔ k ∈ (finish b).ia) ∧
+      (∀ k, k ∈ (finish a).dq ↔ k ∈ (finish b).dq) ∧
+      (finish a).gk = (finish b).gk) :=
+  ⟨agreement_after_phase_2 cfg, (agreement_partial cfg).1, (agreement_partial cfg).2⟩
 
 end KeepVerif.C01
